@@ -509,6 +509,19 @@ func GenGffFile(t *rapid.T, maxItems int) GffFile {
 			it.Len = 1 + GenSeqLen(t, f.Width, false)
 			l := molAlphabet(it.Mol).Letters()
 			it.Pat = genPat(t, strings.ToLower(l)+strings.ToUpper(l), it.Len)
+			if it.Mol == "Protein" && f.Width >= 4 && f.Width <= 80 && rapid.IntRange(0, 3).Draw(t, "end-motif") == 2 {
+				// residues that spell the start of the line that ends an inline sequence (E, N, D and the
+				// gap letter), at the start of every written line: the pattern is one line long
+				motif := rapid.SampledFrom([]string{"end-", "END-", "End-", "end-protein", "END-PROTEIN", "enD-Dna"}).Draw(t, "motif")
+				if len(motif) > f.Width {
+					motif = motif[:4]
+				}
+				it.Pat = motif
+				for len(it.Pat) < f.Width {
+					it.Pat += string(l[rapid.IntRange(0, len(l)-1).Draw(t, "motif-tail")])
+				}
+				it.Len = f.Width*rapid.IntRange(2, 4).Draw(t, "motif-lines") + rapid.IntRange(0, f.Width-1).Draw(t, "motif-rest")
+			}
 		case 3:
 			switch rapid.IntRange(0, 3).Draw(t, "meta-kind") {
 			case 0:
